@@ -282,6 +282,10 @@ func (r *c15Runner) poolFromPeer(ds []vDatagram, tamper string, sent []byte) {
 				rec.Kind, rec.Cookie = "chal", p.Cookie
 			case p.RRCType == 1:
 				rec.Kind, rec.Cookie = "resp", p.Cookie
+			case p.RRCType == 2:
+				rec.Kind = "drop"
+			case p.RRCType > 2:
+				rec.Kind = "unk"
 			case p.CT == int(protocol.ContentTypeACK):
 				rec.Kind = "ack"
 			case p.CT == int(protocol.ContentTypeHandshake):
@@ -340,6 +344,21 @@ func (r *c15Runner) peerWrite(tamper string, rng *vRand) {
 		common.RemoteConnectionID = saved
 	}
 	r.poolFromPeer(fromPeer, tamper, put)
+}
+
+// the peer writes a path_drop / unknown-type / unsolicited RRC record to its active address
+func (r *c15Runner) peerWriteRRC(mt protocol.ReturnRoutabilityCheckMessageType, cookie uint64) {
+	if !dtlsstate.CommonState(r.peer.Conn.state).RRCNegotiated {
+		return
+	}
+	var c [protocol.ReturnRoutabilityCheckCookieLength]byte
+	binary.BigEndian.PutUint64(c[:], cookie)
+	if err := (returnRoutabilityConn{conn: r.peer.Conn}).WriteRRC(
+		context.Background(), r.peer.Conn.RemoteAddr(), mt, c); err != nil {
+		r.res.Err = "peer rrc write: " + err.Error()
+	}
+	_, fromPeer := r.drain()
+	r.poolFromPeer(fromPeer, "", nil)
 }
 
 func (r *c15Runner) observe(st *c15Step, fromEUT []vDatagram, expectPayload string) {
@@ -430,7 +449,7 @@ func c15Gen(n int) func() []byte {
 	return RandomCIDGenerator(n)
 }
 
-func c15Run(t *testing.T, rng *vRand, suite CipherSuiteID, v13 bool, lenClient, lenServer int, eutName string, nOps int) c15Case {
+func c15Run(t *testing.T, rng *vRand, suite CipherSuiteID, v13, noRRC bool, lenClient, lenServer int, eutName string, nOps int) c15Case {
 	t.Helper()
 	ccfg, scfg := vPSKPair(suite)
 	if v13 {
@@ -456,6 +475,13 @@ func c15Run(t *testing.T, rng *vRand, suite CipherSuiteID, v13 bool, lenClient, 
 	}
 	r.res = &res
 	ec := dtlsstate.CommonState(r.eut.Conn.state)
+	if noRRC {
+		// connection IDs in use but the return-routability extension "not echoed": two pion endpoints
+		// always negotiate both together, so the flag is cleared on both sides after the handshake
+		ec.RRCNegotiated = false
+		dtlsstate.CommonState(r.peer.Conn.state).RRCNegotiated = false
+		res.Variant += "-norrc"
+	}
 	res.Neg = ec.RRCNegotiated
 	res.LocalCID = vHex(ec.LocalConnectionIDForInboundRecords())
 	res.PeerCID = vHex(ec.RemoteConnectionID)
@@ -536,11 +562,24 @@ func c15Run(t *testing.T, rng *vRand, suite CipherSuiteID, v13 bool, lenClient, 
 			script += "F"
 		case choice < 42:
 			tam := ""
-			switch rng.intn(6) {
+			switch rng.intn(8) {
 			case 0:
 				tam = "wrongcid"
 			case 1:
 				tam = "nocid"
+			case 2:
+				// path_drop, an unknown message type, or a response nobody asked for
+				switch rng.intn(3) {
+				case 0:
+					r.peerWriteRRC(protocol.ReturnRoutabilityCheckPathDrop, rng.u64())
+				case 1:
+					r.peerWriteRRC(protocol.ReturnRoutabilityCheckMessageType(3+rng.intn(200)), 0)
+				default:
+					r.peerWriteRRC(protocol.ReturnRoutabilityCheckPathResponse, rng.u64())
+				}
+				script += "R"
+
+				continue
 			}
 			r.peerWrite(tam, rng)
 			script += "W"
@@ -590,6 +629,7 @@ func TestVerifC15E2E(t *testing.T) {
 	type job struct {
 		suite  CipherSuiteID
 		v13    bool
+		norrc  bool
 		lc, ls int
 		eut    string
 		n      int
@@ -604,7 +644,7 @@ func TestVerifC15E2E(t *testing.T) {
 		for _, lc := range lens {
 			for _, ls := range lens {
 				for _, eut := range names {
-					jobs = append(jobs, job{suites[rng.intn(len(suites))], rep%2 == 1, lc, ls, eut, 20 + rng.intn(40)})
+					jobs = append(jobs, job{suites[rng.intn(len(suites))], rep%2 == 1, false, lc, ls, eut, 20 + rng.intn(40)})
 				}
 			}
 		}
@@ -612,14 +652,22 @@ func TestVerifC15E2E(t *testing.T) {
 		// exceeds three times a small record (Reserve refuses, Cancel path)
 		for _, p := range [][2]int{{-1, 4}, {4, -1}, {-1, -1}, {1, 120}, {120, 1}, {120, 120}, {0, 120}} {
 			for _, eut := range names {
-				jobs = append(jobs, job{suites[rng.intn(len(suites))], rep%2 == 1, p[0], p[1], eut, 20 + rng.intn(40)})
+				jobs = append(jobs, job{suites[rng.intn(len(suites))], rep%2 == 1, false, p[0], p[1], eut, 20 + rng.intn(40)})
+			}
+		}
+	}
+	// connection IDs without the RRC extension
+	for rep := 0; rep < reps; rep++ {
+		for _, p := range [][2]int{{4, 4}, {1, 8}, {8, 0}, {0, 4}} {
+			for _, eut := range names {
+				jobs = append(jobs, job{suites[rng.intn(len(suites))], rep%2 == 1, true, p[0], p[1], eut, 20 + rng.intn(40)})
 			}
 		}
 	}
 	for _, j := range jobs {
 		j := j
 		var res c15Case
-		vBubble(t, func(t *testing.T) { res = c15Run(t, rng, j.suite, j.v13, j.lc, j.ls, j.eut, j.n) })
+		vBubble(t, func(t *testing.T) { res = c15Run(t, rng, j.suite, j.v13, j.norrc, j.lc, j.ls, j.eut, j.n) })
 		out.emit(res)
 	}
 }
